@@ -417,6 +417,6 @@ def _run_cert(qv, pp, spec, rec):
 
 def subchecks(tier):
     return [
-        Sub("enum", enum_strategy(), run_enum, quick=3000, thorough=100000),
-        Sub("cert", cert_strategy(), run_cert, quick=1500, thorough=40000),
+        Sub("enum", enum_strategy(), run_enum, quick=8000, thorough=160000),
+        Sub("cert", cert_strategy(), run_cert, quick=4000, thorough=60000),
     ]
